@@ -2,7 +2,8 @@
 """tools/keepseed.py <seed out dir> <name> <caught-by ...> : file a confirmed seeded change under /verif/seeded/<name>/"""
 import sys, os, json, shutil
 src, name = sys.argv[1], sys.argv[2]
-caught = sys.argv[3:]
+caught = [a for a in sys.argv[3:] if not a.startswith('--')]
+opts = dict(a[2:].split('=', 1) for a in sys.argv[3:] if a.startswith('--'))
 V = os.path.dirname(os.path.dirname(os.path.abspath(__file__)))
 dst = os.path.join(V, 'seeded', name); os.makedirs(dst, exist_ok=True)
 shutil.copy(os.path.join(src, 'patch.diff'), dst)
@@ -16,6 +17,8 @@ meta = {'property': m.get('property'), 'breaks': m.get('summary'), 'needs_to_man
             'demo': 'demo.py exits 0 (PASS) on the unchanged tree and 1 (FAIL) with the patch (tools/seedtest.sh)',
             'pinned_suite_with_patch': suite,
             'caught_by': caught,
+            'first_report_of_the_check': opts.get('what'),
+            'history': opts.get('history', 'caught by the check as it stood when the change was made'),
             'how_run': 'tools/seedtest.sh <dir> <checks>: scratch worktree of /repo + patch, EON_REPO=<worktree> ./check <id> --tier quick'}}
 json.dump(meta, open(os.path.join(dst, 'meta.json'), 'w'), indent=1)
 print('kept', name, caught, suite)
